@@ -28,6 +28,9 @@
 //!                                           constraint has degree `deg` (constraint-evaluation blowup = max(2, next_pow2(deg-1)),
 //!                                           in general SMALLER than the LDE blowup `lde`): every accessor of the domain, then
 //!                                           ColMatrix::evaluate_columns_over and RowMatrix::evaluate_polys_over::<N> over it
+//!   bfly    n seed i stride tw W            FftInputs::butterfly / butterfly_twiddle on a slice (W = 0) or on rows [E; W]
+//!   shift   n seed off inc W                FftInputs::shift_by / shift_by_series, same containers
+//!   fftn    n seed W                        FftInputs::fft_in_place + permute on rows [E; W] (every column is a transform)
 //! line := u permidx size index              fft::permute_index
 #![allow(dead_code, unused_variables, unused_imports, unused_mut)]
 use wf_harness::core::*;
@@ -415,6 +418,189 @@ fn twiddles<B: Fld>(twn: usize, inv: bool) -> Vec<B> {
     }
 }
 
+
+// ------------------------------------------------------------------------------------ FftInputs containers
+/// the two public implementations of `FftInputs`: a slice of elements and a slice of rows `[E; W]`
+trait Rows<B: Fld, E: FieldElement<BaseField = B>>: Sized {
+    /// elements per row
+    const PER: usize;
+    fn make(coords: &[u128]) -> Self;
+    fn coords(&self) -> Vec<u128>;
+    fn bfly(&mut self, i: usize, stride: usize);
+    fn bfly_tw(&mut self, tw: B, i: usize, stride: usize);
+    fn shift(&mut self, off: B);
+    fn shift_series(&mut self, off: B, inc: B);
+    fn fft(&mut self, tw: &[B]);
+    fn perm(&mut self);
+    fn swap2(&mut self, i: usize, j: usize);
+    fn rows(&self) -> usize;
+}
+struct SliceRows<E>(Vec<E>);
+struct ArrRows<E, const W: usize>(Vec<[E; W]>);
+macro_rules! rows_methods {
+    () => {
+        fn bfly(&mut self, i: usize, stride: usize) {
+            FftInputs::<E>::butterfly(&mut self.0[..], i, stride)
+        }
+        fn bfly_tw(&mut self, tw: B, i: usize, stride: usize) {
+            FftInputs::<E>::butterfly_twiddle(&mut self.0[..], tw, i, stride)
+        }
+        fn shift(&mut self, off: B) {
+            FftInputs::<E>::shift_by(&mut self.0[..], off)
+        }
+        fn shift_series(&mut self, off: B, inc: B) {
+            FftInputs::<E>::shift_by_series(&mut self.0[..], off, inc)
+        }
+        fn fft(&mut self, tw: &[B]) {
+            FftInputs::<E>::fft_in_place(&mut self.0[..], tw)
+        }
+        fn perm(&mut self) {
+            FftInputs::<E>::permute(&mut self.0[..])
+        }
+        fn swap2(&mut self, i: usize, j: usize) {
+            FftInputs::<E>::swap(&mut self.0[..], i, j)
+        }
+        fn rows(&self) -> usize {
+            FftInputs::<E>::len(&self.0[..])
+        }
+    };
+}
+impl<B: Fld, E: FieldElement<BaseField = B>> Rows<B, E> for SliceRows<E> {
+    const PER: usize = 1;
+    fn make(coords: &[u128]) -> Self {
+        SliceRows(to_elems::<B, E>(coords))
+    }
+    fn coords(&self) -> Vec<u128> {
+        coords_of::<B, E>(&self.0)
+    }
+    rows_methods!();
+}
+impl<B: Fld, E: FieldElement<BaseField = B>, const W: usize> Rows<B, E> for ArrRows<E, W> {
+    const PER: usize = W;
+    fn make(coords: &[u128]) -> Self {
+        let el: Vec<E> = to_elems::<B, E>(coords);
+        ArrRows(el.chunks(W).map(|c| core::array::from_fn(|k| c[k])).collect())
+    }
+    fn coords(&self) -> Vec<u128> {
+        self.0.iter().flat_map(|r| coords_of::<B, E>(r)).collect()
+    }
+    rows_methods!();
+}
+
+/// `bfly` / `shift` / `fftn` on one container type
+fn fi_ops<B: Fld, E: FieldElement<BaseField = B>, R: Rows<B, E>>(t: &[&str]) -> Outcome {
+    let d = E::EXTENSION_DEGREE;
+    let m = B::MOD;
+    let f = B::NAME;
+    let per = R::PER * d; // base coordinates per row
+    let bad = || Outcome::ok("bad-op");
+    let mut o = Outcome::ok("");
+    match t {
+        ["bfly", n, seed, i, stride, tw] => {
+            let (Some(n), Some(seed), Some(i), Some(stride), Some(tw)) = (pu(n), p64(seed), pu(i), pu(stride), p128(tw)) else { return bad() };
+            let input = gen_coords::<B>(seed, n * R::PER, d, Shape::Rand);
+            // documented: both positions offset and offset + stride must exist
+            let doc = i.checked_add(stride).map_or(true, |j| j >= n);
+            let r = run(&mut o, format!("{}.bfly.panic", f), doc, || {
+                let mut a = R::make(&input);
+                a.bfly(i, stride);
+                let mut b = R::make(&input);
+                b.bfly_tw(B::from_word(tw), i, stride);
+                // swap twice is the identity and moves whole rows
+                let mut c = R::make(&input);
+                c.swap2(i, i + stride);
+                let sw = c.coords();
+                c.swap2(i + stride, i);
+                (a.coords(), b.coords(), sw, c.coords(), a.rows())
+            });
+            if let Some((ga, gb, sw, sw2, rows)) = r {
+                o.out = format!("{} {}", summary(&ga, d), summary(&gb, d));
+                let j = i + stride;
+                let (mut ea, mut eb, mut es) = (input.clone(), input.clone(), input.clone());
+                let twv = tw % m;
+                for k in 0..per {
+                    let (x, y) = (input[i * per + k], input[j * per + k]);
+                    ea[i * per + k] = am(x, y, m);
+                    ea[j * per + k] = am(x, m - y, m) % m;
+                    let yt = mm(y, twv, m);
+                    eb[i * per + k] = am(x, yt, m);
+                    eb[j * per + k] = am(x, (m - yt) % m, m);
+                    es[i * per + k] = y;
+                    es[j * per + k] = x;
+                }
+                let ea: Vec<u128> = ea.iter().map(|v| v % m).collect();
+                if ga != ea {
+                    o = o.fail(format!("{}.bfly.value", f), "butterfly is not (a + b, a - b) on positions offset, offset + stride (others unchanged)");
+                }
+                if gb != eb {
+                    o = o.fail(format!("{}.bfly.twiddle", f), "butterfly_twiddle is not (a + t*b, a - t*b) on positions offset, offset + stride (others unchanged)");
+                }
+                if sw != es || sw2 != input || rows != n {
+                    o = o.fail(format!("{}.bfly.swap", f), "swap / len");
+                }
+            }
+            o
+        },
+        ["shift", n, seed, off, inc] => {
+            let (Some(n), Some(seed), Some(off), Some(inc)) = (pu(n), p64(seed), poff::<B>(off), poff::<B>(inc)) else { return bad() };
+            let input = gen_coords::<B>(seed, n * R::PER, d, Shape::Rand);
+            let r = run(&mut o, format!("{}.shift.panic", f), false, || {
+                let mut a = R::make(&input);
+                a.shift(B::from_word(off));
+                let mut b = R::make(&input);
+                b.shift_series(B::from_word(off), B::from_word(inc));
+                (a.coords(), b.coords())
+            });
+            if let Some((ga, gb)) = r {
+                o.out = format!("{} {}", summary(&ga, d), summary(&gb, d));
+                let (offv, incv) = (off % m, inc % m);
+                let mut factor = offv;
+                for row in 0..n {
+                    for k in 0..per {
+                        let x = input[row * per + k];
+                        if ga[row * per + k] != mm(x, offv, m) {
+                            o = o.fail(format!("{}.shift.by", f), format!("row {}: not the element times the offset", row));
+                            return o;
+                        }
+                        if gb[row * per + k] != mm(x, factor, m) {
+                            o = o.fail(format!("{}.shift.series", f), format!("row {}: not the element times offset*increment^{}", row, row));
+                            return o;
+                        }
+                    }
+                    factor = mm(factor, incv, m);
+                }
+            }
+            o
+        },
+        ["fftn", n, seed] => {
+            let (Some(n), Some(seed)) = (pu(n), p64(seed)) else { return bad() };
+            let input = gen_coords::<B>(seed, n * R::PER, d, Shape::Rand);
+            let doc = bad_domain::<B>(n, n, 1, 1);
+            let r = run(&mut o, format!("{}.fftn.panic", f), doc, || {
+                let tw = twiddles::<B>(n, false);
+                let mut a = R::make(&input);
+                a.fft(&tw);
+                a.perm();
+                a.coords()
+            });
+            if let Some(got) = r {
+                o.out = summary(&got, d);
+                // every column of the rows is the transform of that column: natural order after permute
+                for c in 0..R::PER {
+                    let col = |v: &[u128]| -> Vec<u128> { (0..n).flat_map(|r| v[(r * R::PER + c) * d..(r * R::PER + c + 1) * d].to_vec()).collect() };
+                    let before = o.fails.len();
+                    o = check_evals::<B>(o, "fftn", &col(&input), d, &col(&got), n, 1, seed ^ c as u64);
+                    if o.fails.len() > before {
+                        break;
+                    }
+                }
+            }
+            o
+        },
+        _ => bad(),
+    }
+}
+
 // ------------------------------------------------------------------------------------ exec
 fn exec_e<B: Fld + ExtensibleField<2> + ExtensibleField<3>, E: FieldElement<BaseField = B>>(t: &[&str]) -> Outcome {
     let d = E::EXTENSION_DEGREE;
@@ -739,6 +925,18 @@ fn exec_e<B: Fld + ExtensibleField<2> + ExtensibleField<3>, E: FieldElement<Base
                 _ => bad(),
             }
         },
+        ["bfly", .., w] | ["shift", .., w] | ["fftn", .., w] => {
+            let args = &t[..t.len() - 1];
+            match pu(w) {
+                Some(0) if t[0] != "fftn" => fi_ops::<B, E, SliceRows<E>>(args),
+                Some(1) => fi_ops::<B, E, ArrRows<E, 1>>(args),
+                Some(2) => fi_ops::<B, E, ArrRows<E, 2>>(args),
+                Some(3) => fi_ops::<B, E, ArrRows<E, 3>>(args),
+                Some(4) => fi_ops::<B, E, ArrRows<E, 4>>(args),
+                Some(8) => fi_ops::<B, E, ArrRows<E, 8>>(args),
+                _ => bad(),
+            }
+        },
         ["colmat", n, cols, seed, blowup, off] => {
             let (Some(n), Some(cols), Some(seed), Some(blowup), Some(off)) = (pu(n), pu(cols), p64(seed), pu(blowup), poff::<B>(off))
             else {
@@ -756,9 +954,32 @@ fn exec_e<B: Fld + ExtensibleField<2> + ExtensibleField<3>, E: FieldElement<Base
                 let pc: Vec<Vec<u128>> = (0..cols).map(|c| coords_of::<B, E>(polys.get_column(c))).collect();
                 let pc2: Vec<Vec<u128>> = (0..cols).map(|c| coords_of::<B, E>(polys2.get_column(c))).collect();
                 let lc: Vec<Vec<u128>> = (0..cols).map(|c| coords_of::<B, E>(lde.get_column(c))).collect();
-                (pc, pc2, lc, lde.num_rows(), lde.num_cols())
+                // the cell accessors of the input matrix, and the column polynomials at one point (base point x embedded)
+                let mut acc_ok = m0.num_base_cols() == cols * d && m0.num_rows() == n && m0.num_cols() == cols;
+                let mut rowbuf = vec![E::ZERO; cols];
+                for r in [0, n / 2, n - 1] {
+                    m0.read_row_into(r, &mut rowbuf);
+                    for c in 0..cols {
+                        let want = &vals[c][r * d..(r + 1) * d];
+                        acc_ok &= coords_of::<B, E>(&[m0.get(c, r)])[..] == *want && coords_of::<B, E>(&[rowbuf[c]])[..] == *want;
+                        for e in 0..d {
+                            acc_ok &= m0.get_base_element(c * d + e, r).canon() == want[e];
+                        }
+                    }
+                }
+                acc_ok &= m0.columns().len() == cols && m0.columns().enumerate().all(|(c, col)| coords_of::<B, E>(col) == vals[c]);
+                acc_ok &= m0.clone().into_columns().iter().enumerate().all(|(c, col)| coords_of::<B, E>(col) == vals[c]);
+                let xv = (seed as u128 | 1) % B::MOD;
+                let at: Vec<u128> = coords_of::<B, E>(&polys.evaluate_columns_at(E::from(B::from_word(xv))));
+                (pc, pc2, lc, lde.num_rows(), lde.num_cols(), acc_ok, xv, at)
             });
-            if let Some((pc, pc2, lc, rows, ncols)) = r {
+            if let Some((pc, pc2, lc, rows, ncols, acc_ok, xv, at)) = r {
+                if !acc_ok {
+                    o = o.fail(format!("{}.colmat.accessor", f), "get / get_base_element / read_row_into / columns / into_columns / num_base_cols disagree with the columns the matrix was built from");
+                }
+                if at.len() != cols * d || (0..cols).any(|c| horner(&pc[c], d, xv, m)[..] != at[c * d..(c + 1) * d]) {
+                    o = o.fail(format!("{}.colmat.evaluate_columns_at", f), format!("evaluate_columns_at({}) is not the direct evaluation of the column polynomials", xv));
+                }
                 let flat_p: Vec<u128> = pc.iter().flatten().cloned().collect();
                 let flat_l: Vec<u128> = lc.iter().flatten().cloned().collect();
                 o.out = format!("{} {} {} {}", rows, ncols, summary(&flat_p, d), summary(&flat_l, d));
@@ -1098,15 +1319,20 @@ fn airdom<B: Fld + ExtensibleField<2> + ExtensibleField<3>, E: FieldElement<Base
             dom.ce_domain_generator().canon(),
             [0usize, 1, n * ce / 2, n * ce - 1].map(|s| dom.get_ce_x_at(s).canon()),
         );
+        // get_ce_x_power_at(step, power, offset^power) = (offset * g_ce^step)^power, also for step*power beyond the domain
+        let xpow: Vec<(usize, u64, u128)> = [(0usize, 1u64), (1, 1), (1, 2), (3, 5), (n * ce - 1, 2), (n * ce - 1, (n * ce - 1) as u64), (n * ce / 2, 3), (5, n as u64), (7, (n * ce) as u64 + 1)]
+            .iter()
+            .map(|(s, p)| (*s, *p, dom.get_ce_x_power_at(*s, *p, dom.offset().exp((*p).into())).canon()))
+            .collect();
         let cm = ColMatrix::new(polys.iter().map(|c| to_elems::<B, E>(c)).collect::<Vec<Vec<E>>>());
         let lde_cols = cm.evaluate_columns_over(&dom);
         let lc: Vec<Vec<u128>> = (0..cols).map(|c| coords_of::<B, E>(lde_cols.get_column(c))).collect();
         let rm: RowMatrix<E> = RowMatrix::evaluate_polys_over::<W>(&cm, &dom);
         let cells: Vec<Vec<u128>> = (0..rm.num_rows()).map(|r| coords_of::<B, E>(rm.row(r))).collect();
         let data: Vec<u128> = rm.data().iter().map(|x| x.canon()).collect();
-        (acc, lde_cols.num_rows(), lde_cols.num_cols(), lc, rm.num_rows(), rm.num_cols(), cells, data)
+        (acc, lde_cols.num_rows(), lde_cols.num_cols(), lc, rm.num_rows(), rm.num_cols(), cells, data, xpow)
     });
-    if let Some((acc, crows, ccols, lc, rrows, rcols, cells, data)) = r {
+    if let Some((acc, crows, ccols, lc, rrows, rcols, cells, data, xpow)) = r {
         let (tl, lds, ces, t2l, t2c, c2l, off, tw, ceg, cex) = acc;
         let flat_l: Vec<u128> = lc.iter().flatten().cloned().collect();
         let flat_c: Vec<u128> = cells.iter().flatten().cloned().collect();
@@ -1171,6 +1397,11 @@ fn airdom<B: Fld + ExtensibleField<2> + ExtensibleField<3>, E: FieldElement<Base
                 for (s, x) in [0usize, 1, n * ce / 2, n * ce - 1].iter().zip(cex.iter()) {
                     if *x != mm(pm(wce, *s as u128, m), g, m) {
                         bad.push(format!("get_ce_x_at({}) is not offset*g_ce^{}", s, s));
+                    }
+                }
+                for (s, p, x) in xpow.iter() {
+                    if *x != pm(mm(pm(wce, *s as u128, m), g, m), *p as u128, m) {
+                        bad.push(format!("get_ce_x_power_at({}, {}) is not (offset*g_ce^{})^{}", s, p, s, p));
                     }
                 }
             },
@@ -1462,6 +1693,49 @@ fn gen_all(rng: &mut Rng, tier: Tier, nrand: usize, emit: &mut dyn FnMut(String)
                 if d == 2 {
                     emit(format!("{} {} rowmat 1024 5 {} 2 g 8", f, d, rng.u64()));
                     emit(format!("{} {} colmat 1024 5 {} 2 g", f, d, rng.u64()));
+                }
+            }
+            // ---- the building blocks of FftInputs directly (public trait methods), on both container kinds: a slice of
+            // elements (W = 0) and a slice of rows [E; W] (the column-batched form; Segment only ever uses base-field rows)
+            {
+                let tws = [0u128, 1, *m - 1, rng.u128() % *m, gen_c];
+                let mut j = 0usize;
+                for w in [0usize, 1, 3, 8, 2, 4] {
+                    for (i, st) in [(0usize, 1usize), (0, 4), (3, 4), (6, 1), (2, 2), (7, 1), (0, 8), (8, 1)] {
+                        j += 1;
+                        if w > 1 && w != 8 && j % 2 == 0 {
+                            continue;
+                        }
+                        emit(format!("{} {} bfly 8 {} {} {} {} {}", f, d, rng.u64(), i, st, tws[j % tws.len()], w));
+                    }
+                    emit(format!("{} {} bfly 2 {} 0 1 {} {}", f, d, rng.u64(), tws[(j + 1) % tws.len()], w));
+                    for n in [0usize, 1, 2, 8, 33] {
+                        for (oi, (off, inc)) in [("1", "1"), ("g", "1"), ("1", "g"), ("0", "5"), ("r", "r"), ("-1", "-1")].iter().enumerate() {
+                            if (n + oi + w) % 2 == 0 && !(n == 8 && w == 0) {
+                                continue;
+                            }
+                            let val = |rng: &mut Rng, s: &str| match s {
+                                "r" => rnd_off(rng, *m),
+                                "-1" => format!("{}", *m - 1),
+                                _ => s.to_string(),
+                            };
+                            emit(format!("{} {} shift {} {} {} {} {}", f, d, n, rng.u64(), val(rng, off), val(rng, inc), w));
+                        }
+                    }
+                }
+                for k in 1..=8u32 {
+                    let w = [1usize, 2, 3, 4, 8][(k as usize + d) % 5];
+                    emit(format!("{} {} fftn {} {} {}", f, d, 1usize << k, rng.u64(), w));
+                    if k <= 4 {
+                        emit(format!("{} {} fftn {} {} 8", f, d, 1usize << k, rng.u64()));
+                    }
+                }
+                if base {
+                    emit(format!("{} {} fftn 512 {} 8", f, d, rng.u64()));
+                    emit(format!("{} {} fftn 1024 {} 3", f, d, rng.u64()));
+                }
+                for n in [0usize, 1, 3, 6] {
+                    emit(format!("{} {} fftn {} {} 4", f, d, n, rng.u64()));
                 }
             }
             // ---- every size, every transform, offsets 1 / generator / random
